@@ -155,11 +155,16 @@ pub fn gen_value(src: &mut Src, depth_left: usize, cfg: &GenCfg) -> J {
         let n = if src.chance(1, 8) { *src.pick(&[31usize, 33, 63, 65, 127, 129, 255, 257, 300]) } else { 5 + src.below(12) };
         // a list of records (the commonest shape of real documents): containers at two-digit indexes
         if kind == 1 && depth_left >= 2 && src.chance(1, 3) {
-            let n = n.min(40);
+            let n = n.min(80);
             let keys: Vec<String> = (0..1 + src.below(3)).map(|_| gen_key(src, cfg)).collect();
+            // a page of records may have holes: slots holding null or a bare number between the records
+            let holes = src.chance(1, 3);
             return J::Arr(
                 (0..n)
                     .map(|i| {
+                        if holes && src.chance(1, 6) {
+                            return if src.bool() { J::Null } else { J::Int(i as i64) };
+                        }
                         let mut m: Vec<(String, J)> = vec![];
                         for k in &keys {
                             if !m.iter().any(|(k2, _)| k2 == k) && !src.chance(1, 6) {
@@ -176,14 +181,29 @@ pub fn gen_value(src: &mut Src, depth_left: usize, cfg: &GenCfg) -> J {
                     .collect(),
             );
         }
+        // mostly scalars only; one wide container in three mixes small containers among them (settings
+        // objects, heterogeneous lists)
+        let mixed = depth_left >= 2 && src.chance(1, 3);
+        let mut elem = |src: &mut Src, i: usize| -> J {
+            if mixed && src.chance(1, 4) {
+                if src.bool() {
+                    J::Arr(vec![J::Int(i as i64)])
+                } else {
+                    J::Obj(vec![("a".to_string(), J::Int(i as i64))])
+                }
+            } else {
+                gen_scalar(src)
+            }
+        };
         return if kind == 1 {
-            J::Arr((0..n).map(|_| gen_scalar(src)).collect())
+            J::Arr((0..n).map(|i| elem(src, i)).collect())
         } else {
             let mut m: Vec<(String, J)> = vec![];
             for i in 0..n {
                 let k = if src.bool() { format!("k{}", i) } else { gen_key(src, cfg) };
                 if !m.iter().any(|(k2, _)| *k2 == k) {
-                    m.push((k, gen_scalar(src)));
+                    let v = elem(src, i);
+                    m.push((k, v));
                 }
             }
             J::Obj(m)
